@@ -22,8 +22,23 @@ class McRun:
         self.other = []
 
 
+# vacuity guard: the named actions of the small machine modules (TLC -coverage 1); a configuration in which one
+# of them is never taken did not exercise what it claims to, and fails as a tool error.  The large string-
+# enumerating configurations are not run with -coverage (TLC's coverage collection made a 6 s run exceed 30
+# minutes); for them every action is on the path to an emitted behaviour, so the guard is "behaviours were
+# emitted, replayed, and some of them are non-trivial" (see replay()).
+ACTIONS = {
+    "MC_Stabilize": ["Apply", "GiveUp"],
+    "MC_Bidi": ["Add"],
+    "MC_Precis": ["Begin", "OnceBegin", "OnceEnd", "OnceReady", "End"],
+    "MC_Csv": ["AddRow"],
+}
+
+
 def run_mc(module, cfg_text, tag, workers=4, timeout=1800, extra_files=(), heap="6g", expect_violation=None,
-           env=None, coverage=False):
+           env=None, coverage=None):
+    if coverage is None:
+        coverage = module in ACTIONS and expect_violation is None
     """runs TLC on spec/mc/<module>.tla with the given cfg; REPLAY lines go to a file"""
     cfg_path = write_cfg(cfg_text, tag)
     out = McRun()
@@ -51,6 +66,11 @@ def run_mc(module, cfg_text, tag, workers=4, timeout=1800, extra_files=(), heap=
         if res.error or res.rc != 0:
             print(res.out[-3000:])
             tool_error("TLC failed on %s/%s: %s (rc=%s)" % (module, tag, res.error, res.rc))
+        if coverage:
+            for a in ACTIONS.get(module, []):
+                if res.coverage.get(a, (0, 0))[1] == 0:
+                    tool_error("vacuity guard: action %s of %s was never taken in configuration %s" % (a, module, tag))
+            out.action_counts = {a: res.coverage[a][1] for a in ACTIONS.get(module, []) if a in res.coverage}
     return out
 
 
@@ -77,6 +97,8 @@ def replay(chk, mc, name, harness_args=(), classify=None, need_oracle=False):
         tool_error("replay produced no summary for %s" % name)
     if summary["n"] != mc.n_replay:
         tool_error("replay consumed %d of %d behaviours" % (summary["n"], mc.n_replay))
+    if mc.n_replay == 0 or summary["nontrivial"] == 0:
+        tool_error("vacuity guard: configuration %s emitted %d behaviours, %d non-trivial" % (name, mc.n_replay, summary["nontrivial"]))
     n_known = 0
     n_dev_seen = 0
     for m in mism:
@@ -104,7 +126,7 @@ def replay(chk, mc, name, harness_args=(), classify=None, need_oracle=False):
     if summary["mismatches"] - summary.get("dev", 0) > summary.get("other_printed", 0):
         chk.violation("%s: %d further mismatches not shown" % (name, summary["mismatches"] - summary.get("dev", 0) - summary.get("other_printed", 0)),
                       {"layer": "L2", "config": name, "note": "overflow of the mismatch list"})
-    chk.add_tlc("MC:" + name, mc.res, {"behaviours_replayed": summary["n"], "executions_in_real_code": summary["executions"],
+    chk.add_tlc("MC:" + name, mc.res, {"actions_taken": getattr(mc, "action_counts", {}), "behaviours_replayed": summary["n"], "executions_in_real_code": summary["executions"],
                                        "mismatches": summary["mismatches"], "known": n_known, "replay_s": round(t, 1)})
     chk.cov["traces_validated_against_impl"] += summary["n"]
     chk.cov["evaluations"] += summary["executions"]
